@@ -111,12 +111,14 @@ Fixpoint walk (fuel : nat) (g : graph) (maxd target depth : Z) (root : N)
     end
   end.
 
-(* fuel that Property.page_tree_walk_terminates proves sufficient *)
-Definition walk_fuel (g : graph) : nat := S (length g).
+(* fuel that Property.page_tree_walk_terminates proves sufficient: |objects|+1 (enough whenever
+   object 0 is free) or the effective depth limit + 2 (enough on every table), whichever is larger *)
+Definition walk_fuel (g : graph) (maxd : Z) : nat :=
+  Nat.max (S (length g)) (Z.to_nat (eff_depth maxd + 2)).
 
 (* XRefTable.PageNumber(pageObjNr) with the catalog's /Pages reference [root] *)
 Definition page_number (g : graph) (maxd target : Z) (root : N) : wres :=
-  walk (walk_fuel g) g maxd target 0 root [] [] 0.
+  walk (walk_fuel g maxd) g maxd target 0 root [] [] 0.
 
 (* ------------------------------------------------------------------ 3. xref /Prev chain *)
 
@@ -194,15 +196,16 @@ Definition sibling_list (t : list (N * option N)) (seen : list N) (first : optio
    `if err := CheckRecursionDepth(name, depth)` in front and `depth+1` for every kid.
    Result: (deepest depth value any call was made with, false if the guard fired). *)
 Inductive rose := Rose (kids : list rose).
+Definition descent_loop (rec : rose -> Z * bool) : list rose -> Z -> Z * bool :=
+  fix loop (ks : list rose) (mx : Z) : Z * bool :=
+    match ks with
+    | [] => (mx, true)
+    | k :: ks' =>
+      let '(m, ok) := rec k in
+      if ok then loop ks' (Z.max mx m) else (Z.max mx m, false)      (* error: return at once *)
+    end.
 Fixpoint guarded_descent (maxd depth : Z) (t : rose) : Z * bool :=
   if depth_exceeded maxd depth then (depth, false) else
   match t with
-  | Rose ks =>
-    (fix loop (ks : list rose) (mx : Z) : Z * bool :=
-       match ks with
-       | [] => (mx, true)
-       | k :: ks' =>
-         let '(m, ok) := guarded_descent maxd (depth + 1) k in
-         if ok then loop ks' (Z.max mx m) else (Z.max mx m, false)   (* error: return at once *)
-       end) ks depth
+  | Rose ks => descent_loop (guarded_descent maxd (depth + 1)%Z) ks depth
   end.
